@@ -345,6 +345,70 @@ def run_near_duplicates(ctx):
     return n
 
 
+def run_cnf_orders(ctx):
+    """enumerated, not sampled: (a) bodies of two and three lines drawn from a universe of or-lines (P, F, S, F|P, F|S, S|S, P|F, S|F,
+    F|F|P ...) in every order of the lines and of the alternatives, at three sites (rule body, block, when block); (b) files that
+    define a rule name twice or three times with different outcomes, in every order of the rules, next to other rules and with a
+    reference; (c) clauses whose first key starts with the letters of a keyword (`orders`, `or_x`, `ORigin`, `android`, `notes`,
+    `inner`, `somewhere`, `keys_x`) at every position of a body. Statuses of rules and file must not depend on the order."""
+    import itertools
+    leaf = {'P': 'a exists', 'F': 'a !exists', 'S': 'l[ x == 99 ].y exists'}
+    doc = {'a': 1, 'l': [{'x': 1}], 'blk': {'a': 1, 'l': [{'x': 1}]}, 'orders': 1, 'or_x': 1, 'ORigin': 1, 'android': 1, 'when_x': 1, 'notes': 1, 'inner': 1}
+    lines = ['P', 'F', 'S', 'FP', 'FS', 'SS', 'PF', 'SF', 'FFP', 'SP']
+    site = {'rule': 'rule r {\n  %s\n}\n', 'block': 'rule r {\n  blk {\n    %s\n  }\n}\n', 'when': 'rule r {\n  when a exists {\n    %s\n  }\n}\n'}
+    groups = []      # lists of texts that must agree
+    combos = [c for k in (2, 3) for c in itertools.combinations(lines, k)]
+    if ctx.tier != 'thorough':
+        combos = [c for c in combos if len(c) == 2] + [c for i, c in enumerate(combos) if len(c) == 3 and i % 5 == ctx.seed % 5]
+    for c in combos:
+        for sname, tpl in site.items():
+            if sname != 'rule' and len(c) == 3 and ctx.tier != 'thorough':
+                continue
+            tx = []
+            for perm in itertools.permutations(c):
+                tx.append(tpl % '\n    '.join(' or '.join(leaf[x] for x in line) for line in perm))
+                tx.append(tpl % '\n    '.join(' or '.join(leaf[x] for x in reversed(line)) for line in perm))
+            groups.append(('lines %s at site %s' % (list(c), sname), tx))
+    bodies = {'P': 'a exists', 'F': 'a !exists', 'S': 'l[ x == 99 ].y exists'}
+    for k in (2, 3):
+        for c in itertools.product('PFS', repeat=k):
+            if len(set(c)) == 1:
+                continue
+            rules = ['rule dup {\n  %s\n}\n' % bodies[x] for x in c] + ['rule other {\n  a exists\n}\n']
+            tx = [''.join(p_) for p_ in itertools.permutations(rules)]
+            groups.append(('rule `dup` defined %d times with outcomes %s' % (k, list(c)), tx if ctx.tier == 'thorough' else tx[:12]))
+    kw = ['orders', 'or_x', 'ORigin', 'android', 'notes', 'inner', 'somewhere', 'keys_x']
+    for w in kw:
+        cl = ['%s exists' % w, 'a exists', 'a == 2 or a == 1']
+        tx = ['rule r {\n  %s\n}\n' % '\n  '.join(p_) for p_ in itertools.permutations(cl)]
+        tx += ['rule r {\n  a == 2 or\n  %s exists\n  a exists\n}\n' % w, 'rule r {\n  a exists\n  %s exists or\n  a == 2\n}\n' % w]
+        groups.append(('a clause whose key starts like a keyword (%s) at every position' % w, tx))
+        cl = ['%s == 99' % w, 'a exists', 'a == 1']          # the keyword-like clause FAILs: merged into a neighbour's or-line it would vanish
+        tx = ['rule r {\n  %s\n}\n' % '\n  '.join(p_) for p_ in itertools.permutations(cl)]
+        tx += ['rule r {\n  blk {\n    %s\n  }\n}\n' % '\n    '.join(p_) for p_ in itertools.permutations(['a exists', '%s == 99' % w.replace('x', 'y')])]
+        groups.append(('a failing clause whose key starts like a keyword (%s) at every position' % w, tx))
+    pairs, meta = [], []
+    for gi, (lab, tx) in enumerate(groups):
+        for ti, text in enumerate(tx):
+            pairs.append((text, json.dumps(doc))); meta.append((gi, ti))
+    outs, raw = e2e.pair_outcomes(pairs, ctx.wd, 'c04cnf', loader='cli')
+    seen, n = {}, 0
+    for (gi, ti), o, r, (text, data) in zip(meta, outs, raw, pairs):
+        o1, s1 = statuses(o, r)
+        st = (o1, tuple(sorted((k_, tuple(sorted(v))) for k_, v in (s1 or {}).items())))
+        if gi in seen:
+            n += 1
+            st0, text0 = seen[gi]
+            if st0 != st:
+                ctx.failing('%s: %s in one order, %s in another' % (groups[gi][0], st0, st),
+                            {'class': 'order', 'transformation': 'lines / alternatives / rules permuted (enumerated shapes)', 'rules': text0, 'variant': text, 'data': data}, found=True)
+        else:
+            seen[gi] = (st, text)
+    ctx.coverage['enumerated_order_comparisons'] = n
+    ctx.coverage['evaluations'] += len(pairs)
+    return n
+
+
 def run(ctx):
     ctx.build()
     pr = ctx.proofs('C04')
@@ -352,6 +416,7 @@ def run(ctx):
     n, originals = run_diff(ctx, 400 if thorough else 60, 40 if thorough else 16)
     n += run_text_orders(ctx)
     n += run_near_duplicates(ctx)
+    n += run_cnf_orders(ctx)
     # the model evaluator agrees with the implementation on the originals (status, error kind, record tree)
     out, errs = corr.run([{'rules': r, 'data': d} for r, d in originals[:300]], ctx.wd, 'c04corr', loader='cli')
     if errs:
